@@ -1,5 +1,6 @@
 """Structural rules on the frontend: REBUILD, STRIP-SET, SAVE-RESTORE, TOKEN-ERRORS, SYNC-SETS,
 PARSE-SHAPE, EXPECT-NOCONSUME, EQ-COMPLETE, EMPTY-RANGE-GUARD, EOF-ONCE."""
+import re
 from . import hir
 from .core import Out
 from .rules_tables import find_fn, last, tag_parsers, match_tables, variants_of, TT
@@ -173,6 +174,52 @@ def rule_rebuild(prog):
                         ok_store = f.get("ast") == arg_ast and f.get("table") == tdest
             ok = ok_store
         out.add(item, "returned value carries the rebuilt table and analysed AST", ok, loc, "")
+        if fname == "new":
+            # the text that is kept (and lexed) is the text that was handed in: every position a client sends refers to *its* text
+            pids = {bd["id"] for pp in b["params"] for bd in hir.pat_bindings(pp) if "String" in c.tstr(pp["t"]) or "str" in c.tstr(pp["t"])}
+            defs_ = _let_defs(b["body"])
+            CHANGERS = ("strip_prefix", "strip_suffix", "trim", "trim_start", "trim_end", "trim_matches", "trim_start_matches",
+                        "trim_end_matches", "replace", "replacen", "to_lowercase", "to_uppercase", "nfc", "nfkc", "lines", "split",
+                        "truncate", "remove", "retain", "drain", "push_str", "push", "insert", "insert_str", "replace_range")
+
+            def origin(e, depth=0):
+                """True: the parameter itself; False: a changed text; None: not decided"""
+                e = hir.strip_ref(e)
+                while e.get("k") == "MethodCall" and e["m"] in ("clone", "to_string", "to_owned", "as_str", "into", "as_ref", "borrow") :
+                    e = hir.strip_ref(e["recv"])
+                pl = hir.path_local(e)
+                if pl:
+                    if pl["id"] in pids:
+                        return True
+                    if pl["id"] in defs_ and depth < 4:
+                        d_ = defs_[pl["id"]]
+                        if any(m_.get("k") == "MethodCall" and m_["m"] in CHANGERS for m_ in hir.nodes(d_)) and \
+                                any((hir.path_local(x_) or {}).get("id") in pids for x_ in hir.nodes(d_, "Path")):
+                            return False
+                        return origin(d_, depth + 1)
+                return None
+            kept = None
+            for st_ in hir.nodes(b["body"], "Struct"):
+                if (st_.get("adt") or st_.get("p") or c.tstr(st_["t"])).endswith("AnalyzedSource") or "AnalyzedSource" in c.tstr(st_["t"]):
+                    for fl in st_["fields"]:
+                        if fl["name"] == "text":
+                            kept = fl["e"]
+            lexed = None
+            for call in hir.nodes(b["body"], "Call"):
+                if (hir.callee(call) or "").endswith("lexer::lex") and call.get("args"):
+                    lexed = call["args"][0]
+            # a parameter that is mutated in place is no longer the text handed in
+            mutated = any(m_.get("k") == "MethodCall" and m_["m"] in CHANGERS and (hir.path_local(hir.strip_ref(m_["recv"])) or {}).get("id") in pids
+                          and "String" in c.tstr(hir.strip_ref(m_["recv"])["t"]) and m_["m"] in ("truncate", "remove", "retain", "drain", "push_str", "push", "insert", "insert_str", "replace_range")
+                          for m_ in hir.nodes(b["body"]))
+            if kept is not None:
+                o_k = False if mutated else origin(kept)
+                o_l = (False if mutated else origin(lexed)) if lexed is not None else None
+                v_ = False if (o_k is False or o_l is False) else (True if (o_k and (o_l or lexed is None)) else None)
+                out.add(item, "the text that is kept and lexed is the text that was handed in", v_, c.loc(kept["sp"]),
+                        "the document text is changed on its way into the store (a leading byte order mark is cut off): for the client "
+                        "U+FEFF is one UTF-16 unit in column 0 of line 0, so after didOpen every position in line 0 is off by one and the "
+                        "server's text is not the client's", ("textid",))
     return out
 
 
@@ -1399,6 +1446,38 @@ def rule_empty_range_guard(prog):
         out.add(eb[0]["d"], "the range of a diagnostic starts behind the comments in front of the construct", tests, c.loc(eb[0]["sp"]),
                 "the start of the text range is the start of the node's first token, comments included: `// note⏎ i := a;` reports "
                 "`assignment has different types` on the comment line as well", ("diagstart",))
+        # the text range of a diagnostic is taken from the tokens its token range names: the slice `tokens[range]`, or the token at the
+        # range's own bound for an empty range.  A neighbour (`tokens[range.end + 1]`) may belong to the next declaration.
+        defs = _let_defs(eb[0]["body"])
+        idx = []
+        for x in hir.nodes_deep(prog, eb[0]["body"], 3, crate=c):
+            ie = None
+            if x.get("k") == "Index" and "Token" in c.tstr(hir.strip_ref(x["base"])["t"]):
+                ie = x["idx"]
+            elif x.get("k") == "MethodCall" and x["m"] in ("get", "get_mut", "nth", "skip", "split_at") and x.get("args") and \
+                    "Token" in c.tstr(hir.strip_ref(x["recv"])["t"]):
+                ie = x["args"][0]
+            if ie is not None:
+                idx.append(ie)
+
+        def arith(e, depth=0):
+            e = hir.strip_ref(e)
+            if e.get("k") == "Binary" and e["op"] in ("+", "-"):
+                return True
+            if e.get("k") == "MethodCall" and e["m"] in ("saturating_sub", "saturating_add", "wrapping_add", "wrapping_sub", "checked_add",
+                                                         "checked_sub", "pred", "succ"):
+                return True
+            pl = hir.path_local(e)
+            if pl and pl["id"] in defs and depth < 3:
+                return arith(defs[pl["id"]], depth + 1)
+            return False
+        if idx:
+            bad = [ie for ie in idx if arith(ie)]
+            out.add(eb[0]["d"], "the text range of a diagnostic is taken from the tokens its token range names, not from a neighbour",
+                    not bad, c.loc((bad or idx)[0]["sp"]),
+                    "a token next to the range is indexed (bound of the range plus or minus something): the diagnostic of a declaration "
+                    "whose last token is missing lands on the `type`/`proc` keyword of the following declaration (`type a = int type b..`)",
+                    ("diagtokens",))
     return out
 
 
@@ -1726,6 +1805,7 @@ def rule_reuse(prog):
     # ---- (aligned)
     ops = set()
     n_cmp = 0
+    align_cmps = []
     for b in scope:
         defs = _let_defs(b["body"])
 
@@ -1756,9 +1836,11 @@ def rule_reuse(prog):
             if is_location(l) and mentions_new_pos(r):
                 ops.add(cmp_["op"])
                 n_cmp += 1
+                align_cmps.append(cmp_)
             elif is_location(r) and mentions_new_pos(l):
                 ops.add({"<": ">", ">": "<", "<=": ">=", ">=": "<=", "==": "==", "!=": "!="}[cmp_["op"]])
                 n_cmp += 1
+                align_cmps.append(cmp_)
     advances = [m for b in scope for m in hir.nodes(b["body"], "MethodCall") if m["m"] == "advance"]
     if not advances:
         out.add("parser::utility::affected", "reuse exit found", None, c.loc(aff["sp"]), "no `advance(..)` in affected(): other construction")
@@ -1879,6 +1961,166 @@ def rule_reuse(prog):
                 "error recovery skips tokens up to the next synchronisation token, so the extent of an error node depends on any number "
                 "of following tokens, but a node is only rebuilt if the change touches its range (+1): `else` in front of `j := 2;` stays "
                 "a one-token error when the assignment behind it is destroyed, a fresh parse extends it", ("recovery",))
+    # ---- (unnarrowed): each test that keeps an old node from being reused (syntax error, misalignment, overlap) decides on its own:
+    # a further condition joined to it (`moves_tokens() && location != new_pos`, `is syntax error && !range.is_empty()`) lets nodes
+    # through for which the test is true.  Decided on the Boolean structure between the test and the `if` that guards the reuse exit.
+    if advances:
+        adv = advances[0]
+
+        def narrowing(root, atom, need_true):
+            """the operand joined to `atom` (or to an expression around it) that can overrule it, False if none, None if not found"""
+            for x, parents in hir.walk(root):
+                if x is not atom:
+                    continue
+                chain = list(parents) + [x]
+                mode = need_true
+                for i_ in range(len(chain) - 1):
+                    p_, n_ = chain[i_], chain[i_ + 1]
+                    k_ = p_.get("k")
+                    if k_ == "Unary" and str(p_.get("op")) in ("!", "Not", "not"):
+                        mode = not mode
+                    elif k_ == "Binary" and p_.get("op") in ("&&", "||"):
+                        if (p_["op"] == "&&") == mode:
+                            return p_["r"] if n_ is p_["l"] or any(y is n_ for y in hir.nodes(p_["l"])) else p_["l"]
+                    elif k_ == "Arm" and p_.get("guard") is not None and n_ is not p_.get("guard"):
+                        return p_["guard"]
+                    elif k_ == "MethodCall" and p_["m"] in ("all", "none", "filter", "find", "position", "skip_while", "take_while") and mode:
+                        return None
+                    elif k_ in ("If", "Match") and n_ is not p_.get("cond") and n_ is not p_.get("scrut"):
+                        return None
+                return False
+            return None
+
+        def ekey(e):
+            e = hir.strip_ref(e)
+            k_ = e.get("k")
+            if k_ == "MethodCall":
+                return ("m", e["m"], ekey(e["recv"])) + tuple(ekey(a_) for a_ in e.get("args", []))
+            if k_ == "Field":
+                return ("f", e["name"], ekey(e["base"]))
+            pl = hir.path_local(e)
+            if pl:
+                return ("l", pl["id"])
+            return (k_, id(e))
+
+        def redundant(sib, atom, root):
+            """`!xs.is_empty() && xs.iter().any(..)`: the joined operand follows from the test"""
+            s_ = hir.strip(sib)
+            inner = hir.strip(s_["e"]) if s_.get("k") == "Unary" else {}
+            if inner.get("k") != "MethodCall" or inner["m"] != "is_empty":
+                return False
+            for m_ in hir.nodes(root, "MethodCall"):
+                if m_["m"] == "any" and any(y is atom for y in hir.nodes(m_)):
+                    r_ = hir.strip_ref(m_["recv"])
+                    while r_.get("k") == "MethodCall" and r_["m"] in ("iter", "into_iter", "iter_mut"):
+                        r_ = hir.strip_ref(r_["recv"])
+                    return ekey(r_) == ekey(inner["recv"])
+            return False
+
+        def guard_sites(b, atom):
+            """(root condition, need_true) for the `if` whose outcome decides about the reuse exit and whose condition holds `atom`,
+            directly or through a local"""
+            defs = _let_defs(b["body"])
+            res = []
+            holders = [(atom, None)]
+            for lid, dv in defs.items():
+                if any(y is atom for y in hir.nodes(dv)):
+                    holders.append((dv, lid))
+            for iff, parents in hir.walk(b["body"]):
+                if iff.get("k") != "If":
+                    continue
+                cond = iff["cond"]
+                for hroot, lid in holders:
+                    if lid is None:
+                        if not any(y is atom for y in hir.nodes(cond)):
+                            continue
+                        use = atom
+                    else:
+                        uses = [pth for pth in hir.nodes(cond, "Path") if (hir.path_local(pth) or {}).get("id") == lid]
+                        if not uses:
+                            continue
+                        use = uses[0]
+                    in_then = any(y is adv for y in hir.nodes(iff["then"]))
+                    in_else = iff.get("else") is not None and any(y is adv for y in hir.nodes(iff["else"]))
+                    leaves = any(True for _ in hir.nodes(iff["then"], "Ret"))
+                    if in_else or (not in_then and leaves):
+                        side = True        # reuse is reached when the condition is false: the test must make it true
+                    elif in_then:
+                        side = False
+                    else:
+                        continue
+                    res.append((cond, use, side, hroot if lid is not None else None))
+            return res
+
+        def decide(atoms, rebuild_when_true):
+            verdict, why = None, ""
+            for b in scope:
+                for atom in atoms:
+                    if not any(y is atom for y in hir.nodes(b["body"])):
+                        continue
+                    for cond, use, side, hroot in guard_sites(b, atom):
+                        need = side if rebuild_when_true(atom) else not side
+                        sib = narrowing(cond, use, need)
+                        if sib is False and hroot is not None:
+                            # polarity of the local inside the condition carries over to its definition
+                            pol = need
+                            for x, parents in hir.walk(cond):
+                                if x is use:
+                                    for p_ in parents:
+                                        if p_.get("k") == "Unary" and str(p_.get("op")) in ("!", "Not", "not"):
+                                            pol = not pol
+                            sib = narrowing(hroot, atom, pol)
+                        if sib is None:
+                            continue
+                        if sib is False:
+                            verdict = True if verdict is None else verdict
+                        elif not redundant(sib, atom, hroot if hroot is not None else cond):
+                            verdict = False
+                            why = "the condition at %s is joined to it" % c.loc(sib["sp"]) if sib.get("sp") else "another condition is joined to it"
+            return verdict, why
+
+        # atoms
+        syn_atoms = []
+        for b in scope:
+            for m_ in hir.nodes(b["body"]):
+                pats = [a_["pat"] for a_ in m_["arms"]] if m_.get("k") == "Match" else [m_["pat"]] if m_.get("k") == "LetExpr" else []
+                if any(v.endswith("ErrorMessage::ParseErrorMessage") for pt in pats for v in hir.pat_variants_all(pt)):
+                    if m_.get("k") == "Match":
+                        # the arm of the variant answers `true`, the test is the match as a whole
+                        arm = [a_ for a_ in m_["arms"] if any(v.endswith("ErrorMessage::ParseErrorMessage") for v in hir.pat_variants_all(a_["pat"]))]
+                        if arm and arm[0].get("guard") is not None:
+                            syn_atoms.append(("guard", m_, arm[0]["guard"]))
+                            continue
+                        body_ = hir.strip(arm[0]["body"]) if arm else {}
+                        if hir.lit_value(body_) is not True and str(hir.lit_value(body_)) not in ("true", "True"):
+                            continue
+                    syn_atoms.append(("atom", m_, None))
+        align_atoms = [x_ for x_ in align_cmps if x_["op"] in ("==", "!=")]
+        over_atoms = [m_ for b in scope for m_ in hir.nodes(b["body"], "MethodCall") if m_["m"] == "overlaps"]
+        for label, atoms, rwt, tag, expl in (
+                ("the test for syntax errors decides on its own (no further condition lets a node with a syntax error through)",
+                 [a_[1] for a_ in syn_atoms if a_[0] == "atom"], lambda a_: True, "unnarrowed-syntax",
+                 "a node whose errors are all empty ranges (a call recovered with zero ignored tokens, `f(a[0] b)`) depends on tokens far "
+                 "behind its window because the failed alternative looked at them; it is reused after the `,` is typed and keeps its five "
+                 "diagnostics"),
+                ("the alignment test decides on its own (no further condition lets a misaligned node through)",
+                 align_atoms, lambda a_: a_["op"] == "!=", "unnarrowed-aligned",
+                 "an n-for-n token replacement moves no token but can shorten the node in front (`else` -> `;`): the old `i := 3;` is "
+                 "reused on top of `{ i := 2`"),
+                ("the overlap test decides on its own (no further condition lets a touched node through)",
+                 over_atoms, lambda a_: True, "unnarrowed-overlap",
+                 "a node whose tokens (or look-ahead window) were changed is handed out unchanged")):
+            if any(a_[0] == "guard" for a_ in syn_atoms) and tag == "unnarrowed-syntax":
+                g_ = [a_ for a_ in syn_atoms if a_[0] == "guard"][0]
+                out.add("parser::utility::affected", label, False, c.loc(g_[2]["sp"]), "the arm of the syntax error carries a guard; " + expl, (tag,))
+                continue
+            if not atoms:
+                continue
+            v_, why = decide(atoms, rwt)
+            if v_ is None:
+                out.add("parser::utility::affected", label, None, c.loc(atoms[0]["sp"]), "the `if` that guards the reuse exit was not found for this test")
+            else:
+                out.add("parser::utility::affected", label, v_, c.loc(atoms[0]["sp"]), (why + "; " if why else "") + expl, (tag,))
     # ---- (window): parsers decide where a node ends by peeking at the synchronisation sets; the longest token sequence one of
     # their elements inspects behind a node is the number of tokens behind a node whose change must make the node "affected"
     tags_ = tag_parsers(prog)
@@ -2264,6 +2506,64 @@ def rule_err_frame(prog):
                     "on a later token - possibly in another declaration, or behind the end of the token list", ("frame",))
     if n < 2:
         out.missing("SplError positions computed from location_offset() in the parser (found %d)" % n)
+    # (escape) expect() puts its error into the stream's error buffer with a position relative to the Reference that is being parsed;
+    # the next enclosing info(..) takes the buffer over.  If a node type that is parsed through `Reference<T>` has no info(..) around
+    # an expect(), the error leaves T's Reference and is taken over by an info(..) of the *enclosing* node, which counts positions
+    # from another token: the diagnostic lands in front of the expression instead of behind the operator.
+    pbodies = [b for b in c.bodies if (c.file_of(b["sp"]).endswith("src/parser.rs") or "/parser/" in c.file_of(b["sp"])) and "/tests" not in c.file_of(b["sp"])]
+    byp = {b["p"]: b for b in pbodies}
+
+    def _is(call, name):
+        return call.get("k") == "Call" and (hir.callee(call) or "").endswith("parser::utility::" + name)
+    direct, mentions = {}, {}
+    for b in pbodies:
+        d_, m_ = [], []
+        for x, parents in hir.walk(b["body"]):
+            if any(_is(p_, "info") for p_ in parents):
+                continue
+            if _is(x, "expect"):
+                d_.append(x)
+            if x.get("k") == "Path" and x["res"].get("k") == "Def":
+                q_ = x["res"].get("rp") or x["res"].get("p")
+                if q_ in byp and q_ != b["p"]:
+                    m_.append(q_)
+        direct[b["p"]], mentions[b["p"]] = d_, m_
+    n_expect = sum(1 for b in pbodies for x in hir.nodes(b["body"], "Call") if _is(x, "expect"))
+    leak = {p_: set(id(x) for x in d_) for p_, d_ in direct.items()}
+    sites = {id(x): (byp[p_], x) for p_, d_ in direct.items() for x in d_}
+    changed = True
+    while changed:
+        changed = False
+        for p_ in leak:
+            for q_ in mentions[p_]:
+                if not leak[q_] <= leak[p_]:
+                    leak[p_] |= leak[q_]
+                    changed = True
+    # node types that are parsed inside a Reference of their own: fields of type Reference<T> / Vec<Reference<T>> in the syntax tree
+    referenced = set()
+    for t_ in c.types:
+        s_ = t_.get("s", "")
+        for m2 in re.finditer(r"Reference<(?:spl_frontend::)?(?:ast::)?([A-Za-z]+)>", s_):
+            referenced.add(m2.group(1))
+    escaping = {}
+    for b in pbodies:
+        if b["name"] == "parse" and " as parser::Parser>::parse" in b["d"] and b["d"].startswith("<ast::"):
+            tname = b["d"][len("<ast::"):].split(" ")[0]
+            if tname in referenced:
+                for sid in leak[b["p"]]:
+                    escaping.setdefault(sid, []).append(tname)
+    if n_expect:
+        if escaping:
+            for sid, tnames in sorted(escaping.items(), key=lambda kv: sites[kv[0]][1]["sp"]):
+                fb, x = sites[sid]
+                out.add(fb["d"], "the error of an expect() is collected inside the Reference it was counted in", False, c.loc(x["sp"]),
+                        "no info(..) stands between this expect() and the parser of %s, which runs inside a Reference of its own: the error "
+                        "position is counted from the first token of the %s but taken over by the enclosing node, which counts from its own "
+                        "first token - `f(x, 1 + )` reports `expected expression` behind `f(`, in front of the innocent first argument"
+                        % (" / ".join(sorted(set(tnames))), sorted(set(tnames))[0].lower()), ("escape",))
+        else:
+            out.add("parser", "the error of an expect() is collected inside the Reference it was counted in", True, "",
+                    "%d expect() calls, each below an info(..) of its own node" % n_expect, ("escape",))
     # table entries: `range` is the token range of the whole declaration (`decl.to_range().shift(offset)`), because `name` (cloned from
     # the declaration) is relative to the declaration's first token - leading doc comments included.  The handlers cut
     # `tokens[entry.range]` and resolve `entry.name` inside that slice; an entry range that starts anywhere else shifts every name
